@@ -51,7 +51,7 @@ func (c *countCtx) polls() int {
 	return c.n
 }
 
-var stubNames = []string{"probe", "id", "probe2", "probe3", "vprobe", "fv", "typed", "typed2", "vtyped", "boom", "zero", "two"}
+var stubNames = []string{"probe", "id", "probe2", "probe3", "vprobe", "fv", "typed", "typed2", "vtyped", "boom", "zero", "two", "eachcb", "callcb0", "cbv"}
 
 // vmResult is one run of a parsed program on the real interpreter.
 type vmResult struct {
@@ -98,6 +98,14 @@ func defineStubs(e *env.Env, tr func(interface{})) {
 		return int64(len(xs))
 	}))
 	must(e.Define("boom", func() { panic("boom") }))
+	// host functions that call a script function back: without results, and with one
+	must(e.Define("eachcb", func(xs []interface{}, cb func(interface{})) {
+		for _, x := range xs {
+			cb(x)
+		}
+	}))
+	must(e.Define("callcb0", func(cb func()) { cb() }))
+	must(e.Define("cbv", func(cb func(interface{}) interface{}, x interface{}) interface{} { return cb(x) }))
 	must(e.Define("zero", func() {}))
 	must(e.Define("two", func() (interface{}, interface{}) { return int64(1), "two" }))
 }
